@@ -27,6 +27,8 @@ for c in $old; do
 done
 git merge --no-commit --no-ff w$X >/tmp/merge.log 2>&1
 for f in MANIFEST.json MANIFEST.hooks KNOWN_FINDINGS.txt; do git checkout --ours $f 2>/dev/null; git add $f 2>/dev/null; done
+for f in $(git diff --name-only --diff-filter=U | grep '^seeded/.*meta.json$'); do git checkout --theirs "$f"; git add "$f"; echo "took theirs: $f"; done
+for f in $(git diff --name-only --diff-filter=U | grep '^evidence/'); do git checkout --theirs "$f"; git add "$f"; done
 if git diff --name-only --diff-filter=U | grep -q .; then echo "verif merge conflicts:"; git diff --name-only --diff-filter=U; exit 1; fi
 for c in "${!map[@]}"; do
   n=${map[$c]}
